@@ -83,7 +83,7 @@ class AbsVolume:
 
 
 # --------------------------------------------------------------------------------------- delay loop
-def delay_step(interp, c, case, facets=None):
+def delay_step(interp, c, case, facets=None, rules=False):
     c.facets = facets
     S, R, T, ci, C, start = case
     install_uniform(interp)
@@ -97,6 +97,8 @@ def delay_step(interp, c, case, facets=None):
     dt = c.real("dt", lo=0, lo_strict=True)
     c.assume(t0 <= grid[0])
     sim = AbsSim(c, S, R, x0, U, D, t0, dt)
+    if rules:
+        sim.havoc_rules()
     q, q0, dtq = _mk_queue(interp, c, R, C, start)
     simulator = sim_mod.ns["DelaySSASimulator"]()
     fr, w, post = run_prologue(interp, fi, simulator, [sim, q, grid])
@@ -149,10 +151,10 @@ def delay_step(interp, c, case, facets=None):
     report(c, ok_order, "[rules] rules are applied once, then the propensities are computed once (delay loop)", kind=K)
     if not ok_order:
         return
-    _, rx, rt, rrs, _ = log[0]
+    _, rx, rt, rrs, _, x_eff = log[0]
     _, px, pt, a, _ = log[1]
     report(c, s_and(rt == t, pt == t, rrs == rs, *[rx[i] == x_pre[i] for i in range(S)],
-                    *[px[i] == x_pre[i] for i in range(S)]),
+                    *[px[i] == x_eff[i] for i in range(S)]),
            "[rules] rules and propensities see the current state, time and rule_step (delay loop)", kind=K)
     Lam = _sum(a)
     draws = list(c.draws)
@@ -179,13 +181,13 @@ def delay_step(interp, c, case, facets=None):
     post_ok = [L["current_time"] == t_new, L["rule_step"] == rs_new, L["current_index"] == ci_new]
     for r in range(T):
         for i in range(S):
-            post_ok.append(L["c_results"][r, i] == (x_pre[i] if ci <= r < ci_new else res0[r, i]))
+            post_ok.append(L["c_results"][r, i] == (x_eff[i] if ci <= r < ci_new else res0[r, i]))
     qexp_cols = {}
     ghost_delta = [0] * S
     delays = [e for e in log if e[0] == "delay"]
     if move:
         for i in range(S):
-            post_ok.append(L["c_current_state"][i] == x_pre[i] + _sum([q0[r, start] * D[i, r] for r in range(R)]))
+            post_ok.append(L["c_current_state"][i] == x_eff[i] + _sum([q0[r, start] * D[i, r] for r in range(R)]))
         qs = [q.start_index == (start + 1) % C, q.next_queue_time == nqt + dtq]
         for r in range(R):
             for col in range(C):
@@ -206,23 +208,23 @@ def delay_step(interp, c, case, facets=None):
         _, dx, drx, dval = delays[0]
         post_ok.append(drx == j)
         post_ok.append(a[j] > 0)
-        post_ok += [dx[i] == x_pre[i] for i in range(S)]        # delay drawn from the pre-firing state
+        post_ok += [dx[i] == x_eff[i] for i in range(S)]        # delay drawn from the pre-firing state
         # reference queue: the real add_reaction (proved in C20) on a copy of the pre-state queue
         sim_mod_q = interp.load("bioscrape.simulator").ns["ArrayDelayQueue"](q0.copy(), dtq, 0)
         sim_mod_q.start_index = start
         sim_mod_q.next_queue_time = nqt
         if dval > 0:
             sim_mod_q.add_reaction(t_new + dval, j, 1)
-            post_ok += [L["c_current_state"][i] == x_pre[i] + U[i, j] for i in range(S)]
+            post_ok += [L["c_current_state"][i] == x_eff[i] + U[i, j] for i in range(S)]
         else:
-            post_ok += [L["c_current_state"][i] == x_pre[i] + U[i, j] + D[i, j] for i in range(S)]
+            post_ok += [L["c_current_state"][i] == x_eff[i] + U[i, j] + D[i, j] for i in range(S)]
         for r in range(R):
             for col in range(C):
                 post_ok.append(q.queue[r, col] == sim_mod_q.queue[r, col])
         post_ok += [q.start_index == start, q.next_queue_time == nqt]
         ghost_delta = [U[i, j] + D[i, j] for i in range(S)]
     else:
-        post_ok += [L["c_current_state"][i] == x_pre[i] for i in range(S)]
+        post_ok += [L["c_current_state"][i] == x_eff[i] for i in range(S)]
         post_ok += [q.queue[r, col] == q0[r, col] for r in range(R) for col in range(C)]
         post_ok += [q.start_index == start, q.next_queue_time == nqt, len(delays) == 0]
     report(c, s_and(*post_ok),
@@ -230,7 +232,7 @@ def delay_step(interp, c, case, facets=None):
            "state; a firing applies the immediate part now and either queues one unit at t+delay (delay > 0) or applies "
            "the delayed part now; a queue step applies the due column and advances the queue", "delay step relation", K)
     tot_post = _queue_total(q, D, S, R, C)
-    report(c, s_and(*[L["c_current_state"][i] + tot_post[i] == x_pre[i] + tot_pre[i] + ghost_delta[i] for i in range(S)]),
+    report(c, s_and(*[L["c_current_state"][i] + tot_post[i] == x_eff[i] + tot_pre[i] + ghost_delta[i] for i in range(S)]),
            "[conservation] state + queued deliveries changes by exactly (immediate + delayed) stoichiometry of the fired "
            "reaction, and not at all otherwise", "delay conservation", K)
     inv = [ci_new <= T, L["current_time"] >= t, L["current_time"] <= q.next_queue_time]
@@ -239,8 +241,13 @@ def delay_step(interp, c, case, facets=None):
     inv += [q.queue[r, col] >= 0 for r in range(R) for col in range(C)]
     report(c, s_and(*inv), "[invariant] delay loop: clock never runs backwards, stays before the next grid time and the "
                            "next queue slot; pending counts stay non-negative", "delay invariant", K)
+    report(c, (L["rule_step"] == 1) == (ci_new > ci),
+           "[dt-rule] delay loop: the step flag is raised exactly by an iteration that reports a row", "delay dt-rule schedule", K)
+    if ci_new < T:
+        report(c, L["current_time"] < grid[ci_new],
+               "[schedule] delay loop: the clock equals a grid time only after that row is final", "delay scheduled-rule ordering", K)
     if Lam == 0:
-        report(c, s_and(*[L["c_current_state"][i] == x_pre[i] + (_sum([q0[r, start] * D[i, r] for r in range(R)]) if move else 0)
+        report(c, s_and(*[L["c_current_state"][i] == x_eff[i] + (_sum([q0[r, start] * D[i, r] for r in range(R)]) if move else 0)
                           for i in range(S)]),
                "[absorbing] with total propensity zero no reaction fires (only queued deliveries can change the state)", kind=K)
     if ci_new == T:
@@ -258,7 +265,7 @@ def delay_step(interp, c, case, facets=None):
 
 
 # --------------------------------------------------------------------------------------- volume loop
-def volume_step(interp, c, case, vol_factory=None, facets=None):
+def volume_step(interp, c, case, vol_factory=None, facets=None, rules=False, aligned=False):
     c.facets = facets
     S, R, T, ci = case
     install_uniform(interp)
@@ -272,6 +279,8 @@ def volume_step(interp, c, case, vol_factory=None, facets=None):
     dt = c.real("dt", lo=0, lo_strict=True)
     c.assume(t0 <= grid[0])
     sim = AbsSim(c, S, R, x0, U, D, t0, dt)
+    if rules:
+        sim.havoc_rules()
     V0 = c.real("V0", lo=0, lo_strict=True)
     vol = vol_factory(interp, c, V0) if vol_factory else AbsVolume(c, V0)
     simulator = sim_mod.ns["VolumeSSASimulator"]()
@@ -309,6 +318,12 @@ def volume_step(interp, c, case, vol_factory=None, facets=None):
     c.assume(t <= nqt)
     if ci > 0:
         c.assume(grid[ci - 1] <= t)
+    if aligned:
+        # reporting grid and volume clock aligned (what py_simulate_model sets up): next volume step AT the next row
+        c.assume(nqt == grid[ci])
+        c.assume(t < grid[ci])
+        if ci + 1 < T:
+            c.assume(dt == grid[ci + 1] - grid[ci])
     x_pre = [x[i] for i in range(S)]
     sim.log.clear()
     c.draws.clear()
@@ -324,10 +339,10 @@ def volume_step(interp, c, case, vol_factory=None, facets=None):
     report(c, ok_order, "[rules] volume rules are applied once, then the volume propensities are computed once", kind=K)
     if not ok_order:
         return
-    _, rx, rt, rrs, rV = log[0]
+    _, rx, rt, rrs, rV, x_eff = log[0]
     _, px, pt, a, pV = log[1]
     report(c, s_and(rt == t, pt == t, rrs == rs, rV == V, pV == V, *[rx[i] == x_pre[i] for i in range(S)],
-                    *[px[i] == x_pre[i] for i in range(S)]),
+                    *[px[i] == x_eff[i] for i in range(S)]),
            "[rules] volume rules and volume-scaled propensities see the current state, time and CURRENT volume", kind=K)
     Lam = _sum(a)
     draws = list(c.draws)
@@ -336,9 +351,15 @@ def volume_step(interp, c, case, vol_factory=None, facets=None):
     else:
         tau = -s_log(draws[0]) / Lam
         fired, prop, rs_new, move = True, t + tau, 0, False
-    c.assume(s_not(nqt == prop))
+    tie_step = False
+    if Lam == 0:
+        if nqt == prop:
+            # both orders are acceptable for the step relation; follow the code and let [dt-rule] judge
+            tie_step = bool(L["next_queue_time"] == nqt + dt)
+    else:
+        c.assume(s_not(nqt == prop))
     lam0_move = False
-    if nqt < prop:
+    if nqt < prop or tie_step:
         t_new, nqt_new, move, fired, rs_new = nqt, nqt + dt, True, False, 1
     else:
         t_new, nqt_new = prop, nqt
@@ -353,7 +374,7 @@ def volume_step(interp, c, case, vol_factory=None, facets=None):
         hit = ci <= r < ci_new
         post_ok.append(L["c_volume_trace"][r] == (V if hit else vt0[r]))
         for i in range(S):
-            post_ok.append(L["c_results"][r, i] == (x_pre[i] if hit else res0[r, i]))
+            post_ok.append(L["c_results"][r, i] == (x_eff[i] if hit else res0[r, i]))
     divided = None
     if move:
         vlog = getattr(vol, "log", [])
@@ -367,7 +388,7 @@ def volume_step(interp, c, case, vol_factory=None, facets=None):
             _, dv_t, dv_V, dv_dt, divided = divs[0]
             post_ok += [st_t == t_new, st_V == V, st_dt == dt, L["current_volume"] == V + dV, vol.v == V + dV,
                         dv_t == t_new, dv_V == V + dV, dv_dt == dt]
-        post_ok += [L["c_current_state"][i] == x_pre[i] for i in range(S)]
+        post_ok += [L["c_current_state"][i] == x_eff[i] for i in range(S)]
         if divided is not None:
             if divided == 1:
                 post_ok += [out == "break", L["cell_divided"] == 1]
@@ -384,11 +405,11 @@ def volume_step(interp, c, case, vol_factory=None, facets=None):
             report(c, False, "[volume-loop] firing without a bracketed reaction", kind=K)
             return
         post_ok += [a[j] > 0, L["current_volume"] == V, out == "next"]
-        post_ok += [L["c_current_state"][i] == x_pre[i] + U[i, j] + D[i, j] for i in range(S)]
+        post_ok += [L["c_current_state"][i] == x_eff[i] + U[i, j] + D[i, j] for i in range(S)]
     else:
         # neither a reaction nor a volume step: nothing but the clock (and recorded rows) changes
         post_ok += [L["current_volume"] == V, out == "next", vol.get_volume() == V0 if False else True]
-        post_ok += [L["c_current_state"][i] == x_pre[i] for i in range(S)]
+        post_ok += [L["c_current_state"][i] == x_eff[i] for i in range(S)]
         if isinstance(vol, AbsVolume):
             post_ok.append(len(vol.log) == 0)
     post_ok.append(L["rule_step"] == rs_new)
@@ -402,6 +423,17 @@ def volume_step(interp, c, case, vol_factory=None, facets=None):
                "[growth-clock] a volume step is taken only when the clock reaches the next volume-step time, which then "
                "advances by dt (so k steps have been taken iff k*dt has elapsed, to within one step)",
                "volume step without advancing the volume clock (total propensity zero)", K)
+    if aligned and out == "next":
+        conds = [(L["rule_step"] == 1) == (ci_new > ci)]
+        if ci_new < T:
+            conds.append(L["next_queue_time"] == grid[ci_new])
+        report(c, s_and(*conds),
+               "[dt-rule] volume loop with aligned clocks: the step flag is raised exactly by an iteration that reports a row, and "
+               "the volume clock stays aligned with the next row (so rules with frequency dt run once per reported step)",
+               "volume dt-rule runs twice per step when no reaction can fire", K)
+    if ci_new < T and out == "next":
+        report(c, L["current_time"] < grid[ci_new],
+               "[schedule] volume loop: the clock equals a grid time only after that row is final", "volume scheduled-rule ordering", K)
     inv = [ci_new <= T, L["current_time"] >= t, L["current_volume"] > 0, L["current_time"] <= L["next_queue_time"]]
     if ci_new < T:
         inv.append(L["current_time"] <= grid[ci_new])
@@ -489,7 +521,12 @@ def delay_volume_step(interp, c, case, facets=None):
     report(c, ok_order, "[rules] rules then propensities, once each (delay+volume loop)", kind=K)
     if not ok_order:
         return
+    x_eff = log[0][5]
     _, px, pt, a, pV = log[1]
+    report(c, s_and(log[0][2] == t, pt == t, log[0][3] == rs, log[0][4] == V, pV == V, *[log[0][1][i] == x_pre[i] for i in range(S)],
+                    *[px[i] == x_eff[i] for i in range(S)]),
+           "[rules] volume rules see the current state, time, rule_step and volume; propensities see the rule-updated state "
+           "(delay+volume loop)", kind=K)
     Lam = _sum(a)
     draws = list(c.draws)
     if Lam == 0:
@@ -514,7 +551,7 @@ def delay_volume_step(interp, c, case, facets=None):
         hit = ci <= r < ci_new
         post_ok.append(L["c_volume_trace"][r] == (V if hit else vt0[r]))
         for i in range(S):
-            post_ok.append(L["c_results"][r, i] == (x_pre[i] if hit else res0[r, i]))
+            post_ok.append(L["c_results"][r, i] == (x_eff[i] if hit else res0[r, i]))
     ghost_delta = [0] * S
     delays = [e for e in log if e[0] == "delay"]
     if kind == "reaction":
@@ -537,9 +574,9 @@ def delay_volume_step(interp, c, case, facets=None):
         refq.next_queue_time = nqt
         if dval > 0:
             refq.add_reaction(t_new + dval, j, 1)
-            post_ok += [L["c_current_state"][i] == x_pre[i] + U[i, j] for i in range(S)]
+            post_ok += [L["c_current_state"][i] == x_eff[i] + U[i, j] for i in range(S)]
         else:
-            post_ok += [L["c_current_state"][i] == x_pre[i] + U[i, j] + D[i, j] for i in range(S)]
+            post_ok += [L["c_current_state"][i] == x_eff[i] + U[i, j] + D[i, j] for i in range(S)]
         post_ok += [q.queue[r, col] == refq.queue[r, col] for r in range(R) for col in range(C)]
         post_ok += [drx == j, a[j] > 0, L["current_volume"] == V, L["next_vol_time"] == nvt]
         ghost_delta = [U[i, j] + D[i, j] for i in range(S)]
@@ -551,11 +588,11 @@ def delay_volume_step(interp, c, case, facets=None):
             return
         _, st_t, st_V, st_dt, dV = steps[0]
         post_ok += [st_t == t_new, st_V == V, st_dt == dt, L["current_volume"] == V + dV, L["next_vol_time"] == nvt + dt]
-        post_ok += [L["c_current_state"][i] == x_pre[i] for i in range(S)]
+        post_ok += [L["c_current_state"][i] == x_eff[i] for i in range(S)]
         post_ok += [q.queue[r, col] == q0[r, col] for r in range(R) for col in range(C)]
     else:
         for i in range(S):
-            post_ok.append(L["c_current_state"][i] == x_pre[i] + _sum([q0[r, start] * D[i, r] for r in range(R)]))
+            post_ok.append(L["c_current_state"][i] == x_eff[i] + _sum([q0[r, start] * D[i, r] for r in range(R)]))
         post_ok += [q.start_index == (start + 1) % C, q.next_queue_time == nqt + dtq, L["current_volume"] == V]
         for r in range(R):
             for col in range(C):
@@ -563,7 +600,7 @@ def delay_volume_step(interp, c, case, facets=None):
     report(c, s_and(*post_ok), "[step] delay+volume loop: three-way race (reaction / volume step / queue slot) with recording of "
                                "pre-update state and current volume", "delay-volume step relation", K)
     tot_post = _queue_total(q, D, S, R, C)
-    report(c, s_and(*[L["c_current_state"][i] + tot_post[i] == x_pre[i] + tot_pre[i] + ghost_delta[i] for i in range(S)]),
+    report(c, s_and(*[L["c_current_state"][i] + tot_post[i] == x_eff[i] + tot_pre[i] + ghost_delta[i] for i in range(S)]),
            "[conservation] delay+volume loop: state + queued deliveries changes exactly by the fired reaction's total "
            "stoichiometry", "delay-volume conservation", K)
     report(c, s_and(L["current_time"] >= t, L["current_volume"] > 0),
